@@ -16,6 +16,7 @@ mod c05;
 mod c06;
 mod c07;
 mod c08;
+mod c09;
 mod c10;
 mod c11;
 mod c12;
@@ -52,6 +53,7 @@ fn main() {
         "C06" => { c06::cases(&mut ctx); c06::preds(&mut ctx); }
         "C07" => { c07::cases(&mut ctx); c07::preds(&mut ctx); }
         "C08" => { c08::cases(&mut ctx); c08::preds(&mut ctx); }
+        "C09" => { c09::cases(&mut ctx); c09::preds(&mut ctx); }
         "C10" => { c10::cases(&mut ctx); c10::preds(&mut ctx); }
         "C14" => { c14::cases(&mut ctx); c14::preds(&mut ctx); }
         "C15" => { c15::cases(&mut ctx); c15::preds(&mut ctx); }
